@@ -93,6 +93,9 @@ Definition check_case (c : fcase) : bool :=
 Definition check_case_cur (c : fcase) : bool :=
   match c with
   | CServer cs obs => server_calls_cur [] cs obs
+  | CNode ops obufs owrites olog =>
+      let st := nrun_cur exec_stub ops in
+      all2 bytes_eqb (bufs st) obufs && all2 write_eqb (outs st) owrites && all2 logent_eqb (log st) olog
   | _ => check_case c
   end.
 
